@@ -30,6 +30,28 @@ func needsQuote(v string) bool {
 	return false
 }
 
+// quoteFields quotes v for the dependency-type syntax, whose parser splits the
+// line into whitespace-separated fields before it re-joins a quoted value
+// with single spaces: a space that is leading, trailing or follows another
+// space is therefore written as the escape \x20, which the parser's
+// strconv.Unquote turns back into a space.
+func quoteFields(v string) string {
+	q := strconv.Quote(v)
+	inner := q[1 : len(q)-1]
+	var sb strings.Builder
+	sb.WriteByte('"')
+	for i := 0; i < len(inner); i++ {
+		c := inner[i]
+		if c == ' ' && (i == 0 || i == len(inner)-1 || inner[i-1] == ' ') {
+			sb.WriteString(`\x20`)
+			continue
+		}
+		sb.WriteByte(c)
+	}
+	sb.WriteByte('"')
+	return sb.String()
+}
+
 // DepTypeText writes a dep.Type in the space-separated key/value syntax the
 // schema's parsers read ("opt scope peer knownas \"a b\"").
 func DepTypeText(kvs []KV) string {
@@ -41,7 +63,7 @@ func DepTypeText(kvs []KV) string {
 			continue
 		}
 		if needsQuote(kv.V) {
-			parts = append(parts, strconv.Quote(kv.V))
+			parts = append(parts, quoteFields(kv.V))
 		} else {
 			parts = append(parts, kv.V)
 		}
